@@ -526,3 +526,98 @@ def ob_finished_first_is_not_timed_out(T: int, d: int, j0: int, j1: int, j2: int
     if out["kind"] == "timeout":
         return fin is None or fin >= deadline
     return True
+
+
+# ------------------------------------------------------------------ cancel with several EQUAL events in flight, then resume
+class Sample(Event):
+    prompt: str
+
+
+class SDone(Event):
+    v: int
+
+
+class _FanSame(Workflow):
+    """fans out n events (equal payloads when `same`) to a step with n workers; the first life parks every invocation, the resumed life
+    lets them finish; the run completes when all n results are collected"""
+
+    @step
+    async def start(self, ctx: Context, ev: StartEvent) -> Sample | None:
+        for i in range(self.n):
+            ctx.send_event(Sample(prompt=("p" if self.same else "p%d" % i)))
+        return None
+
+    @step(num_workers=4)
+    async def work(self, ctx: Context, ev: Sample) -> SDone:
+        import asyncio
+
+        if self.life[0] == 1:
+            await asyncio.sleep(1000)
+        return SDone(v=1)
+
+    @step
+    async def join(self, ctx: Context, ev: SDone) -> StopEvent | None:
+        got = ctx.collect_events(ev, [SDone] * self.n)
+        if got is None:
+            return None
+        return StopEvent(result=len(got))
+
+
+@obligation(quick=200, thorough=400, partitions_quick=[f"n == {k}" for k in (2, 3)],
+            what="cancel_run while n invocations of one step are in flight on events with EQUAL payloads (or distinct ones), context through to_dict "
+                 "-> JSON -> Context.from_dict, resumed: every interrupted invocation runs again and the run completes with all n results",
+            bounds={"invocations in flight": "2..3 (thorough 4)", "payloads": "all equal / all distinct", "cancel instant": "1..2"})
+def ob_cancel_resume_equal_events(n: int, same: bool, c: int) -> bool:
+    """
+    pre: 2 <= n <= NSAME and 1 <= c <= 2
+    post: _
+    """
+    import asyncio
+    import json
+
+    import workflows.plugins.basic as basic_mod
+    import workflows.runtime.types.step_function as sf_mod
+    from vlib.h_idle import FakeTime
+    from vlib.miniloop import MiniLoop
+
+    n, c = conc(n, 2, 4), conc(c, 1, 2)
+    same = True if same else False
+    life = [1]
+    loop = MiniLoop()
+    out: dict = {}
+
+    def mk():
+        w = _FanSame(timeout=None, runtime=basic_mod.BasicRuntime())
+        w.n, w.same, w.life = n, same, life
+        return w
+
+    async def main():
+        h1 = mk().run(run_id="r1")
+        await asyncio.sleep(c)
+        await h1.cancel_run()
+        try:
+            await h1
+            out["first"] = "finished"
+        except WorkflowCancelledByUser:
+            out["first"] = "cancelled"
+        snap = json.loads(json.dumps(h1.ctx.to_dict()))
+        life[0] = 2
+        w2 = mk()
+        h2 = w2.run(ctx=Context.from_dict(w2, snap), run_id="r2")
+        try:
+            out["second"] = ("result", await asyncio.wait_for(h2, timeout=30))
+        except asyncio.TimeoutError:
+            out["second"] = ("HUNG", None)
+        except Exception as e:  # noqa: BLE001
+            out["second"] = ("error", repr(e))
+
+    saved = (basic_mod.time, sf_mod.time)
+    basic_mod.time = sf_mod.time = FakeTime(loop)
+    try:
+        loop.run_until_complete(main())
+    finally:
+        basic_mod.time, sf_mod.time = saved
+    return out.get("first") == "cancelled" and out.get("second") == ("result", n)
+
+
+NSAME = B(3, 4)
